@@ -12,6 +12,7 @@ CONSTANTS Keys, KSz, VSizes, Limit,
                        \* growth actions would otherwise spend three steps in four on persistence events)
           AllowPop,    \* bulk pops in the churn phase
           GrowUntil, ShrinkFrom, EmitDepth,
+          FanShrink,   \* inside the fan window only overwrites and removals of present keys are candidates (the walk drifts downwards)
           FanFrom      \* print the history at every length FanFrom..EmitDepth: TLC evaluates the printing invariant on EVERY candidate
                        \* successor, so this yields the complete one-step closure of each state the walk passes through in that window
 
@@ -53,7 +54,7 @@ Present == {k \in Keys : HasKey(dict, k)}
 \* TLC's simulator first picks an action and then generates the successors of that action only: this way all candidates are generated
 \* (and printed by EmitWalk) at every step of the window.
 InFan == FanFrom < EmitDepth /\ Len(hist) > FanFrom
-FanNext == \E c \in ({"s"} \X Keys \X VSizes) \cup ({"r"} \X Present \X {0}) :
+FanNext == \E c \in ({"s"} \X (IF FanShrink THEN Present ELSE Keys) \X VSizes) \cup ({"r"} \X Present \X {0}) :
              IF c[1] = "s" THEN SetK(c[2], c[3]) ELSE RemoveK(c[2])
 Next == IF InFan THEN FanNext ELSE
         \/ ~Shrinking /\ \E k \in Keys, v \in VSizes : SetK(k, v)
